@@ -902,9 +902,17 @@ func c08ConfigCases() []configCase {
 // commands that cannot be resolved, so that it ends either in one of the
 // pattern validations or — when those pass — at "error starting client",
 // before any process exists.
-func c08RunValidation(failing, flaky []string) (class, errText, panicked string) {
+func c08RunValidation(failing, flaky, runPats, skipPats []string) (class, errText, panicked string) {
 	defer c08Recover(&panicked)
 	kf, kfl := parsePatterns(failing), parsePatterns(flaky)
+	// as Run does: no --run / --skip patterns = no trie
+	var runTrie, skipTrie *testTrie
+	if len(runPats) > 0 {
+		runTrie = parsePatterns(runPats)
+	}
+	if len(skipPats) > 0 {
+		skipTrie = parsePatterns(skipPats)
+	}
 	if kf == nil {
 		kf = &testTrie{} // as Run does
 	}
@@ -913,7 +921,7 @@ func c08RunValidation(failing, flaky []string) (class, errText, panicked string)
 	}
 	noSuchCommand := []string{"verif-c08-no-such-command"}
 	logP, errP := &internal.SimplePrinter{}, &internal.SimplePrinter{}
-	results, err := run(c08ConfigCases(), kf, kfl, nil, nil, c08Suites(), logP, errP,
+	results, err := run(c08ConfigCases(), kf, kfl, runTrie, skipTrie, c08Suites(), logP, errP,
 		&Flags{ClientCommand: noSuchCommand, ServerCommand: noSuchCommand, MaxServers: 1, Parallelism: 1})
 	switch {
 	case err == nil:
@@ -942,7 +950,11 @@ func c08AmbiguityPatterns(maxLen int, prefixes ...string) []string {
 	return out
 }
 
-func c08JudgeAmbiguity(r *rep.Report, failing, flaky []string) {
+// c08JudgeAmbiguity: runPats / skipPats are --run / --skip patterns given in
+// addition. The statement makes no exception for names the filter leaves out:
+// "a name matched as both known-failing and known-flaky is rejected" ranges
+// over the permutation names, like the unmatched-pattern rule.
+func c08JudgeAmbiguity(r *rep.Report, failing, flaky, runPats, skipPats []string) {
 	names := make([]string, len(c08LibraryTails))
 	for i, tail := range c08LibraryTails {
 		names[i] = c08Prefix + "/" + tail
@@ -957,8 +969,9 @@ func c08JudgeAmbiguity(r *rep.Report, failing, flaky []string) {
 			conflicts = append(conflicts, n)
 		}
 	}
+	allPats := append(append(append(append([]string{}, failing...), flaky...), runPats...), skipPats...)
 	var unmatched []string
-	for _, p := range append(append([]string{}, failing...), flaky...) {
+	for _, p := range allPats {
 		any := false
 		for _, n := range names {
 			any = any || c08GlobStr(p, n)
@@ -968,19 +981,37 @@ func c08JudgeAmbiguity(r *rep.Report, failing, flaky []string) {
 		}
 	}
 	sort.Strings(conflicts)
-	class, errText, panicked := c08RunValidation(failing, flaky)
-	rp := c08Replay{Kind: "ambiguity", Failing: failing, Flaky: flaky, Names: names}
+	filtered := len(runPats) > 0 || len(skipPats) > 0
+	conflictSelected := false // does the run/skip filter select one of the conflicting names?
+	for _, n := range conflicts {
+		if (len(runPats) == 0 || c08AnyGlob(runPats, n)) && !c08AnyGlob(skipPats, n) {
+			conflictSelected = true
+		}
+	}
+	class, errText, panicked := c08RunValidation(failing, flaky, runPats, skipPats)
+	rp := c08Replay{Kind: "ambiguity", Failing: failing, Flaky: flaky, Run: runPats, Skip: skipPats, Names: names}
 	r.Eval(1)
-	r.Outcome("run:" + class)
+	if filtered {
+		r.Outcome("run(filtered):" + class)
+	} else {
+		r.Outcome("run:" + class)
+	}
 	if rep.ReplayInput() != nil {
-		fmt.Printf("replay: failing %q flaky %q library %q: run() -> %s %q panicked=%q; reference: unmatched=%q conflicts=%q\n",
-			failing, flaky, names, class, errText, panicked, unmatched, conflicts)
+		fmt.Printf("replay: failing %q flaky %q run %q skip %q library %q: run() -> %s %q panicked=%q; reference: unmatched=%q conflicts=%q (one of them selected by run/skip: %v)\n",
+			failing, flaky, runPats, skipPats, names, class, errText, panicked, unmatched, conflicts, conflictSelected)
 	}
 	if panicked != "" {
 		r.Violate("panic", fmt.Sprintf("run() with known-failing %q known-flaky %q panicked: %s", failing, flaky, panicked), rp)
 		return
 	}
-	via := c08ViaStr(append(append([]string{}, failing...), flaky...), names)
+	via := c08ViaStr(allPats, names)
+	if filtered && len(unmatched) == 0 && len(conflicts) > 0 {
+		if conflictSelected {
+			r.Count("filtered: a conflicting name is inside the run/skip selection", 1)
+		} else {
+			r.Count("filtered: every conflicting name is outside the run/skip selection", 1)
+		}
+	}
 	switch {
 	case len(unmatched) > 0:
 		// a pattern that matches no permutation is an error (whatever else holds)
@@ -1001,8 +1032,15 @@ func c08JudgeAmbiguity(r *rep.Report, failing, flaky []string) {
 			r.Count("spurious-unmatched-error (converse direction, not part of the statement)", 1)
 			_ = fmt.Sprintf("known-failing %q known-flaky %q over library %q: every pattern matches a permutation, yet: %q", failing, flaky, names, errText)
 		default:
-			c08Composite(r, "ambiguity-not-rejected", via,
-				fmt.Sprintf("known-failing %q and known-flaky %q both match %q, yet run() did not reject the configuration (%s: %q)", failing, flaky, conflicts, class, errText), rp)
+			key, with := "ambiguity-not-rejected", ""
+			if filtered {
+				with = fmt.Sprintf(" with --run %q --skip %q", runPats, skipPats)
+				if !conflictSelected {
+					key = "ambiguity-not-rejected.conflicts-outside-run-skip-selection"
+				}
+			}
+			c08Composite(r, key, via,
+				fmt.Sprintf("known-failing %q and known-flaky %q both match %q, yet run()%s did not reject the configuration (%s: %q)", failing, flaky, conflicts, with, class, errText), rp)
 		}
 	default:
 		if len(failing) > 0 && len(flaky) > 0 {
@@ -1028,12 +1066,14 @@ func TestVerifC08Ambiguity(t *testing.T) {
 	defer r.Write()
 	r.Rule = "real run() on a generated suite with the three permutations s/TLS:false/{a, a/b, b} and unresolvable commands (it returns before any process is started); " +
 		"every ordered pair (known-failing pattern, known-flaky pattern), each side also empty, where a pattern is one of {s/TLS:false, **, */*} followed by every sequence over {a,b,*,**} of length 1..3 (252 patterns); " +
+		"every ordered pair over s/TLS:false/<length 1..2>, **/<length 1>, */*/<length 1> (thorough: all three prefixes with length 1..2) again under each of 67 --run/--skip filters (one --run or one --skip pattern from s/TLS:false/<length 1..2>, **, **/a, **/b, **/a/b; --run x --skip over s/TLS:false/<length 1>; three two-pattern filters), " +
+		"so that the names matched by both sides lie inside, partly inside and wholly outside the selection; " +
 		"thorough adds every ordered pair of known-failing patterns s/TLS:false/<length 1..2> against every known-flaky pattern of tail length 1..2. " +
-		"Oracle: reference glob (unmatched pattern -> error; some permutation matched by both sides -> rejected; otherwise run() must get as far as starting the client). " +
+		"Oracle: reference glob (unmatched pattern, --run/--skip included -> error; some permutation matched by both sides -> rejected, whether or not --run/--skip select it; otherwise run() must get as far as starting the client). " +
 		"A case is non-trivial when all patterns match some permutation (so the ambiguity rule decides); cases are distinct by construction."
 	if data := rep.ReplayInput(); data != nil {
 		rp := c08ParseReplay(t, data)
-		c08JudgeAmbiguity(r, rp.Failing, rp.Flaky)
+		c08JudgeAmbiguity(r, rp.Failing, rp.Flaky, rp.Run, rp.Skip)
 		return
 	}
 	pats := c08AmbiguityPatterns(3, c08Prefix, "**", "*/*")
@@ -1063,10 +1103,49 @@ func TestVerifC08Ambiguity(t *testing.T) {
 			if q >= 0 {
 				flaky = []string{pats[q]}
 			}
-			c08JudgeAmbiguity(r, failing, flaky)
+			c08JudgeAmbiguity(r, failing, flaky, nil, nil)
 			r.Count("pairs-1x1", 1)
 			if k%9000 == 5 {
 				r.Sample(c08Replay{Kind: "ambiguity", Failing: failing, Flaky: flaky})
+			}
+		}
+	}
+	// The same rule with --run / --skip patterns given: filters that select all, some or
+	// none of the names matched by both sides (and controls without an overlap).
+	kPats := c08AmbiguityPatterns(2, c08Prefix)
+	kPats = append(kPats, c08AmbiguityPatterns(1, "**", "*/*")...)
+	fPats := append(c08AmbiguityPatterns(2, c08Prefix), "**", "**/a", "**/b", "**/a/b")
+	type filt struct{ run, skip []string }
+	var filters []filt
+	for _, f := range fPats {
+		filters = append(filters, filt{run: []string{f}}, filt{skip: []string{f}})
+	}
+	one := c08AmbiguityPatterns(1, c08Prefix)
+	for _, f1 := range one {
+		for _, f2 := range one {
+			filters = append(filters, filt{run: []string{f1}, skip: []string{f2}})
+		}
+	}
+	filters = append(filters,
+		filt{run: []string{c08Prefix + "/a", c08Prefix + "/b"}},
+		filt{skip: []string{c08Prefix + "/a", c08Prefix + "/a/b"}},
+		filt{run: []string{"**/a", "**/a/b"}, skip: []string{"**/b"}})
+	if rep.Thorough() {
+		kPats = c08AmbiguityPatterns(2, c08Prefix, "**", "*/*")
+	}
+	r.Extra["filtered_known_patterns"] = len(kPats)
+	r.Extra["filters"] = len(filters)
+	for _, f := range filters {
+		for _, failing := range kPats {
+			for _, flaky := range kPats {
+				if !next() {
+					continue
+				}
+				c08JudgeAmbiguity(r, []string{failing}, []string{flaky}, f.run, f.skip)
+				r.Count("pairs-1x1-with-run-skip", 1)
+				if k%7000 == 11 {
+					r.Sample(c08Replay{Kind: "ambiguity", Failing: []string{failing}, Flaky: []string{flaky}, Run: f.run, Skip: f.skip})
+				}
 			}
 		}
 	}
@@ -1084,7 +1163,7 @@ func TestVerifC08Ambiguity(t *testing.T) {
 				if !next() {
 					continue
 				}
-				c08JudgeAmbiguity(r, []string{two[p], two[q]}, []string{flaky})
+				c08JudgeAmbiguity(r, []string{two[p], two[q]}, []string{flaky}, nil, nil)
 				r.Count("pairs-2x1", 1)
 			}
 		}
